@@ -179,13 +179,13 @@ fn main() {
             for i in 0..n {
                 let mut r = prng::Rng::new(prng::run_seed(verif_seed, "miri-c09", i));
                 let mut p = gen::GenParams::draw(&mut r, 6);
-                p.n_funcs = 3 + (i % 4) as u32;
+                p.n_funcs = 4 + (i % 5) as u32;
                 p.size_mode = 0;
                 p.n_customs = 0;
                 p.names = 0;
                 p.producers = 0;
-                if i % 3 == 2 {
-                    p.plant_errors = 1;
+                if i % 2 == 1 {
+                    p.plant_errors = 1 + (i % 3) as u32;
                 }
                 let g = gen::generate(&p);
                 let mut cfg = types::CfgBits::walrus_default();
